@@ -14,9 +14,6 @@
       contract's reflective method set, so any external account can run them by name;
     - [d_ibtp_no_revert]: the IBTP path ([tx.IsIBTP] -> [HandleIBTP]) never reverts on error;
     - [d_failed_events]: events posted by a FAILED transaction are still harvested into [Counter];
-    - [d_fee_after_body]: the fee is checked against the balance left by the transaction body; when
-      that cannot pay, the body is reverted and the WHOLE original balance is taken even though it
-      could have covered the fee (repaired: after the revert the fee is charged if affordable);
     - [d_stale_changer]: [ClearChangerAndRefund] replaces the ledger's changer object while the
       account objects already loaded in this block keep the old one, so their later journal
       entries are invisible to [RevertToSnapshot].
@@ -33,16 +30,15 @@ Record xcfg := {
   d_ibtp_no_revert : bool;
   d_failed_events : bool;
   d_stale_changer : bool;
-  d_fee_after_body : bool;
-  x_fees : fcfg
+  x_fees : fcfg       (* transfer and fee flags, see Model/Fees.v *)
 }.
 
 Definition xcfg_fixed : xcfg :=
   {| d_raw_add := false; d_stub_promoted := false; d_ibtp_no_revert := false;
-     d_failed_events := false; d_stale_changer := false; d_fee_after_body := false; x_fees := fcfg_fixed |}.
+     d_failed_events := false; d_stale_changer := false; x_fees := fcfg_fixed |}.
 Definition xcfg_faithful : xcfg :=
   {| d_raw_add := true; d_stub_promoted := true; d_ibtp_no_revert := true;
-     d_failed_events := true; d_stale_changer := true; d_fee_after_body := true; x_fees := fcfg_faithful |}.
+     d_failed_events := true; d_stale_changer := true; x_fees := fcfg_faithful |}.
 
 Inductive undo :=
 | UStore (k : key) (prev : option N)
@@ -298,7 +294,7 @@ Definition fee_phase (c : xcfg) (e : fenv) (s1 : st) (t : tx) (res : result) : s
   let s1t := touch s1 from in
   if bal s1t from <? fees
   then let x := revert_all s1t in
-       if negb (d_fee_after_body c) && negb (bal x from <? fees)
+       if negb (d_fee_after_body (x_fees c)) && negb (bal x from <? fees)
        then (pay_admins_s c e (setbal c x from (bal x from - fees)) fees, false)
        else (pay_admins_s c e (setbal c x from 0) (bal x from), false)
   else (pay_admins_s c e (setbal c s1t from (bal s1t from - fees)) fees, is_ok res).
